@@ -625,12 +625,16 @@ func suiteCompare(o *Out, thorough bool, seed int64) {
 
 var truthConds = []string{"null", "true", "false", "0", "-0", "0.0", "0e5", "1", "-1", "0.1", "toFloat('x')", "(1/0)", "(-1/0)",
 	"1e-400", "5e-309", "(-3/1e350)", "(1e-200*1e-200)", "4e-324", "1e-900", "0e-900", "1e400", "(-1e309)", "0.0000000000000000000000000000000001",
-	"''", "'0'", "' '", "'a'", "[]", "[0]", "arr", "emp", "m", "em", "t", "fn", "np", "zz", "len", "ctx", "z8"}
+	"''", "'0'", "' '", "'a'", "[]", "[0]", "arr", "emp", "m", "em", "t", "fn", "np", "zz", "len", "ctx", "z8",
+	"tz", "ty", "nps", "nps[0]", "t0", "f0", "fneg0", "u0", "up0", "sp", "mn", "mn.k", "0e400", "-0e-400", "(0 * -1)", "rec('x')"}
 
 func suiteTruthy(o *Out, thorough bool, seed int64) {
 	hosts := "1:0:0:2:0:a:" + ws("h")
 	data := wmap("arr", "A2 Ii:1 Ii:2", "emp", "A0", "m", wmap("k", "Ii:1"), "em", "O0", "t", "M1700000000000000000:0",
-		"fn", "H1", "np", "P", "z8", "Ii8:0", "rec", "H1")
+		"fn", "H1", "np", "P", "z8", "Ii8:0", "rec", "H1",
+		// Go values that are nil without being null: a nil slice / map of a typed slice / map type (what a host function
+		// returning []string hands back for "nothing found"), an array holding typed nil pointers, the zero time
+		"tz", "Zn", "ty", "Yn", "nps", "A2 P Ps", "t0", "M-62135596800000000000:0", "f0", "G"+hx([]byte("0")), "fneg0", "G"+hx([]byte("-0")), "u0", "Iu64:0", "up0", "Iup:0", "sp", ws(" "), "mn", wmap("k", "N"))
 	vals := []string{"'v'", "0", "null", "[1]", "arr", "false"}
 	for _, c := range truthConds {
 		for _, f := range []string{"!!%s", "!%s", "typeof %s"} {
@@ -795,6 +799,23 @@ func suiteLocals(o *Out, thorough bool, seed int64) {
 			snapshotOracle(o, line, t, h3, d)
 		}
 		o.Stat("spread-then-reread")
+	}
+	// caller numbers with more digits than a machine word holds and a fraction, handed to INTEGER parameters (of
+	// builtins and of host functions, alone, in arrays and in maps): the parameter receives the truncation, the
+	// caller's number stays what it was
+	{
+		hI := hosts + ";3:0:0:2:0:i:Ii:3;4:0:0:2:0:[i64:Ii:4;5:0:0:2:0:{i:Ii:5;6:0:1:2:0:i32:Ii:6;7:0:0:2:0:i8,i16:Ii:7"
+		k1, k2, k3 := "D+:300000000000000000000009:-23", "D+:725000000000000000000001:-23", "D-:1999999999999999999999999999999999:-33"
+		d := wmap("k", k1, "j", k2, "neg", k3, "ks", "A3 "+k1+" "+k2+" "+k3, "km", wmap("a", k1, "b", k2), "rows", "A2 "+wmap("n", k1)+" "+wmap("n", k2), "t", "M1700000000000000000:0",
+			"f", "H1", "g", "H2", "hi", "H3", "his", "H4", "him", "H5", "hv", "H6", "h2", "H7")
+		for _, t := range []string{"left('abcdefgh', k), k", "right('abcdefgh', j), j", "mid('abcdefgh', k, j), [k, j]", "lpad('a', 'b', j), j", "rpad('a', 'b', k), [k, k]", "date(2024, k, j), [k, j]",
+			"addDate(t, k, j, neg), [k, j, neg]", "hi(k), k", "hi(j), hi(j), j", "his(ks), ks", "him(km), km", "hv(k, j, neg), [k, j, neg]", "hv(ks...), ks", "h2(k, j), [k, j]", "his(mapToArr(rows, 'n')), rows",
+			"$a = k, hi($a), [$a, k]", "$a = ks, his($a), [$a, ks]", "hi(k + 0), k", "hi(neg), neg", "left('abcdefgh', ks[1]), ks", "hi(km.b), km", "[hi(k), k === 3.00000000000000000000009]"} {
+			line := fmt.Sprintf("EV\t%s\t0\t%s\t%s", hx([]byte(t)), hI, d)
+			emitEval(o, t, 0, hI, d, true)
+			snapshotOracle(o, line, t, hI, d)
+		}
+		o.Stat("wide fractions to integer parameters")
 	}
 	// a local has the VALUE of the right-hand side, whatever its size: numbers beyond the 34 digits and the exponent
 	// range that computed numbers have (long literals, decimals handed in by the caller, and everything that passes
@@ -1702,6 +1723,37 @@ func suiteStrings(o *Out, thorough bool, seed int64) {
 			}
 		}
 	}
+	// byte sequences that are NOT UTF-8 but would decode - for a decoder that forgets a range check - to a character
+	// that matters inside a literal (either quote, the backslash, every line break, a space, a letter): overlong forms
+	// in 2, 3 and 4 bytes, surrogates, values above U+10FFFF, truncated sequences; raw in the literal body, at the
+	// start, in the middle and at the end: they are unescaped bytes and are preserved verbatim
+	{
+		var seqs [][]byte
+		for _, c := range []rune{0x22, 0x27, 0x5c, 0x0a, 0x0d, 0x85, 0x2028, 0x2029, 0x20, 0x6e, 0x00, 0x7f, 0x80, 0x7ff, 0x800, 0xffff} {
+			if c < 0x80 {
+				seqs = append(seqs, []byte{0xc0 | byte(c>>6), 0x80 | byte(c&0x3f)})
+			}
+			if c < 0x800 {
+				seqs = append(seqs, []byte{0xe0, 0x80 | byte(c>>6), 0x80 | byte(c&0x3f)})
+			}
+			seqs = append(seqs, []byte{0xf0, 0x80 | byte(c>>12), 0x80 | byte((c>>6)&0x3f), 0x80 | byte(c&0x3f)})
+			seqs = append(seqs, []byte{0xf8, 0x80, 0x80 | byte(c>>12), 0x80 | byte((c>>6)&0x3f), 0x80 | byte(c&0x3f)})
+		}
+		seqs = append(seqs, []byte{0xed, 0xa0, 0x80}, []byte{0xed, 0xbf, 0xbf}, []byte{0xf4, 0x90, 0x80, 0x80}, []byte{0xf7, 0xbf, 0xbf, 0xbf}, []byte{0xf0, 0x9f, 0x98}, []byte{0xe2, 0x80}, []byte{0xc2},
+			[]byte{0xf0, 0x8f, 0xbf, 0xbf}, []byte{0xe0, 0x9f, 0xbf}, []byte{0xc1, 0xbf}, []byte{0x80, 0x80}, []byte{0xfe}, []byte{0xff, 0xfe})
+		for _, q := range []byte{'\'', '"'} {
+			for _, sq := range seqs {
+				for _, frame := range [][2]string{{"", ""}, {"a", "nb"}, {"a", ""}, {"", "b"}, {"\\n", "\\\\"}, {"\u00e9", "\u00e9"}} {
+					text := append(append(append([]byte{}, unescapeGo(frame[0])...), sq...), unescapeGo(frame[1])...)
+					checkLit(string(q)+frame[0]+string(sq)+frame[1]+string(q), text)
+				}
+				// and outside a literal, next to one: never part of it
+				emitEval(o, string(q)+"a"+string(q)+" + "+string(q)+string(sq)+string(q), 0, "-", "-", true)
+				emitEval(o, string(q)+"a"+string(q)+string(sq)+"+ 1", 0, "-", "-", true)
+			}
+		}
+		o.Stat("ill-formed sequences in literals")
+	}
 	// every choice of escape form for every symbol, texts of up to 2 symbols
 	var forms func(sym []byte, q byte) []string
 	forms = func(sym []byte, q byte) []string {
@@ -2034,4 +2086,12 @@ func ifaceParamOracle(o *Out) {
 		}
 	}
 	o.Stat("interface parameters with methods")
+}
+
+// unescapeGo: the text denoted by the few escape sequences used in the frames above
+func unescapeGo(s string) []byte {
+	s = strings.ReplaceAll(s, "\\\\", "\x00BS")
+	s = strings.ReplaceAll(s, "\\n", "\n")
+	s = strings.ReplaceAll(s, "\x00BS", "\\")
+	return []byte(s)
 }
